@@ -76,11 +76,12 @@ theorem C05_update_atomic_partial (lt : K → K → Bool) (P : Params K) (tree :
 theorem C05_update_atomic (lt : K → K → Bool) (P : Params K) (tree : Tree K V) (progs : List (List (COp K V)))
     (hkp : KParams lt P) (ht : TreeOk none tree) (hord : OrdTree lt tree) (hsep : SepTree lt tree)
     (ho : tree.order = P.order) (hp : PadOk P) (hd : Disciplined progs)
+    (hdel : 4 ≤ tree.order ∨ NoDelete progs)
     (c : Config K V) (hr : Reachable (Config.init P tree progs) c) :
     Lin.Linearizable lt tree.abs (history c) ∧
     (∀ (m : List (K × V)) (k : K) (f : Option V → V),
       Spec.step lt m (Op.update k f) = (Spec.update lt m k f, Out.callback (Spec.lookup lt m k))) :=
-  ⟨linearizable_full' lt P tree progs hkp ht hord hsep ho hp hd c hr, fun _ _ _ => rfl⟩
+  ⟨linearizable_full' lt P tree progs hkp ht hord hsep ho hp hd hdel c hr, fun _ _ _ => rfl⟩
 
 /-- **C05: the callback is invoked exactly once per Update, under every schedule.** At every
     moment the number of callback invocations of a thread equals the number of its Updates
@@ -88,9 +89,10 @@ theorem C05_update_atomic (lt : K → K → Bool) (P : Params K) (tree : Tree K 
     invokes one, and an Update that has not reached its leaf has not yet. -/
 theorem C05_callback_exactly_once (P : Params K) (tree : Tree K V) (progs : List (List (COp K V)))
     (ht : TreeOk none tree) (ho : tree.order = P.order) (hp : PadOk P) (hd : Disciplined progs)
+    (hdel : 4 ≤ tree.order ∨ NoDelete progs)
     (c : Config K V) (hr : Reachable (Config.init P tree progs) c) :
     ∀ t th, c.threads[t]? = some th → cbCount c t = updReturned c t + inCallback th :=
-  callback_exactly_once P tree progs ht ho hp hd c hr
+  callback_exactly_once P tree progs ht ho hp hd hdel c hr
 
 /-- **C05 (per stretch): the callback is invoked at the leaf, with the current value.** Whenever
     a stretch of an Insert/Update continuation appends a callback note, its argument is
